@@ -794,6 +794,7 @@ type sessSnap struct {
 	log                 string
 	declared, asserted  map[string]bool
 	iteNames            map[string]string
+	recDefs             map[string]*recDef
 }
 
 func (e *Env) snapshot() *sessSnap {
@@ -808,13 +809,27 @@ func (e *Env) snapshot() *sessSnap {
 	for k, v := range e.iteNames {
 		in[k] = v
 	}
-	return &sessSnap{log: e.sess.log.String(), declared: cp(e.declared), asserted: cp(e.asserted), iteNames: in}
+	// recursive spec functions defined during a discovery run are forgotten with it (their
+	// declarations leave the session log)
+	rds := make(map[string]*recDef, len(e.recDefs))
+	for k, v := range e.recDefs {
+		c := *v
+		c.heapNames = append([]string(nil), v.heapNames...)
+		hs := make(map[string]string, len(v.heapSort))
+		for a, b := range v.heapSort {
+			hs[a] = b
+		}
+		c.heapSort = hs
+		rds[k] = &c
+	}
+	return &sessSnap{log: e.sess.log.String(), declared: cp(e.declared), asserted: cp(e.asserted), iteNames: in, recDefs: rds}
 }
 
 func (e *Env) rollback(s *sessSnap) {
 	e.sess.log.Reset()
 	e.sess.log.WriteString(s.log)
 	e.declared, e.asserted, e.iteNames = s.declared, s.asserted, s.iteNames
+	e.recDefs = s.recDefs
 }
 
 // conjuncts flattens a goal of the form (and a b ...) / (= true (and ...)).
